@@ -20,7 +20,7 @@ def run(tier, seed, replay=None, pid="C04"):
     # quick: one faulty sync, with a second fault at the next request from a small set of kinds; thorough: two faulty syncs in a row
     # (single faults), and -- C04 -- one faulty sync with every pair of kinds
     c = dict(N=3, Segs="{0,1,2}", Kinds=kinds, MaxFaulty=1 if tier == "quick" else 2, FIXED=True, EXPORT=True, MaxAddrs=1 if tier != "quick" else 2,     # thorough: two faulty syncs in a row with one address, two addresses in a run of their own
-             PairKinds='{"stall","s500"}' if (pid == "C04" and tier == "quick") else "{}", Depths="{0}")
+             PairKinds='{"stall","s500"}' if (pid == "C04" and tier == "quick") else "{}", Depths="{0}", Pends="{FALSE}")
     r = vlib.tlc("SyncFaults", (pid + ".cfg", vlib.cfg_text(c, INV)), timeout=7000, tag=pid.lower(), extra=["-maxSetSize", "8000000"])
     ck.add_tlc("SyncFaults", r, "mode x trigger x segment size x fault kind x request index (%d faulty sync(s)) then a clean sync: store sound, "
                "failure leaves latest/notifications/cache as required, clean retry converges" % c["MaxFaulty"])
@@ -39,6 +39,14 @@ def run(tier, seed, replay=None, pid="C04"):
         with open(os.path.join(r.workdir, "c04_behaviours.ndjson"), "a") as f:
             f.write(open(os.path.join(rd.workdir, "c04_behaviours.ndjson")).read())
         shutil.rmtree(rd.workdir, ignore_errors=True)
+    if pid == "C04":
+        # another head of the same publisher is announced while the faulty request is being answered: the failing sync un-caches its
+        # own head all the same, and the one waiting behind it fails with a notification of its own
+        rq = vlib.tlc("SyncFaults", ("C04pend.cfg", vlib.cfg_text(dict(c, Pends="{TRUE}", MaxFaulty=1, PairKinds="{}", MaxAddrs=1, Kinds=ALL), INV)), timeout=7000, tag="c04pend")
+        ck.add_tlc("SyncFaults/second-announcement", rq, "announce-triggered faulty sync with another announcement of the same publisher arriving during the faulty request")
+        with open(os.path.join(r.workdir, "c04_behaviours.ndjson"), "a") as f:
+            f.write(open(os.path.join(rq.workdir, "c04_behaviours.ndjson")).read())
+        shutil.rmtree(rq.workdir, ignore_errors=True)
     if pid == "C04" and tier == "thorough":
         r2 = vlib.tlc("SyncFaults", ("C04pairs.cfg", vlib.cfg_text(dict(c, MaxFaulty=1, PairKinds=ALL, Kinds=ALL), INV)), timeout=7000, tag="c04pairs", extra=["-maxSetSize", "8000000"])
         ck.add_tlc("SyncFaults/pairs", r2, "one faulty sync with every pair of fault kinds at two consecutive requests")
